@@ -399,12 +399,33 @@ pub fn execute_isolated(check: &dyn Check, verif_dir: &str, scenario: &J) -> Res
     RunOut::from_json(&j)
 }
 
+/// Every scenario runs either in a fresh child process (isolate) or at least on a fresh OS
+/// thread, so that thread-local state of the code under test (caches, counters) never leaks from
+/// one scenario into the next: a scenario's outcome is a function of the scenario alone, and a
+/// replay of its file (main thread of a fresh process) sees the same initial conditions.
 fn exec_dispatch(check: &dyn Check, verif_dir: &str, scenario: &J) -> Result<RunOut, String> {
     if check.isolate() {
-        execute_isolated(check, verif_dir, scenario)
-    } else {
-        check.execute(scenario)
+        return execute_isolated(check, verif_dir, scenario);
     }
+    std::thread::scope(|s| {
+        let h = std::thread::Builder::new()
+            .stack_size(16 << 20)
+            .spawn_scoped(s, || check.execute(scenario))
+            .map_err(|e| format!("cannot spawn scenario thread: {}", e))?;
+        match h.join() {
+            Ok(r) => r,
+            Err(p) => {
+                let msg = if let Some(s) = p.downcast_ref::<&str>() {
+                    s.to_string()
+                } else if let Some(s) = p.downcast_ref::<String>() {
+                    s.clone()
+                } else {
+                    "panic".to_string()
+                };
+                Err(format!("harness panicked while executing a scenario: {}", msg))
+            }
+        }
+    })
 }
 
 pub fn run_check(check: &dyn Check, opts: &Options) -> i32 {
